@@ -1,7 +1,9 @@
 import Model
 import Proofs.Walk
+import Proofs.DepGlobal
+import Proofs.WFCheck
 /-!
-C04 — dependencies and gaps are respected (forward mode; backward mode via the deadline formula).
+C04 — dependencies and gaps are respected (forward mode end to end; backward mode via the deadline formula).
 
 For a forward task without a start of its own, the bound `earliestStart` dominates every dependency's
 (start | end) + gap — own, inherited from every enclosing container and created by `precedes` (all are
@@ -51,6 +53,57 @@ theorem ready_means_deps_scheduled (e : Env) (σ : St) (t : Nat) (hf : (σ.tst t
   simp only [hf, if_true] at hr
   unfold asapReady at hr
   simpa [List.all_eq_true] using hr
+
+/-! ### end to end (forward mode, leaf predecessors) -/
+
+/-- **one task**: a successful `schedule()` of a forward effort task without a start of its own, started in any
+    state, leaves it with a start at or after every predecessor's (start | end) + gap as they stand in that state -/
+theorem task_start_respects_deps (e : Env) (wf : WF e) (σ : St) (t : Nat) (hel : FwdEff e t)
+    (hb : t < σ.ts.size) (hf : (σ.tst t).forward = true) (hnd : (σ.tst t).done = false)
+    (hok : (scheduleTask e σ t).2 = true) (dp : Dep) (hd : dp ∈ (e.taskD t).allDeps) (dt : Int)
+    (hdt : dateOf σ dp = some dt) :
+    ∃ v, ((scheduleTask e σ t).1.tst t).start = some v ∧ dt + dp.gap ≤ v := by
+  obtain ⟨v, hv, hle⟩ := scheduleTask_start_ge e wf σ t hb hf hel.nostart hel.alloc hel.nomile hel.effort hnd hok
+  exact ⟨v, hv, Int.le_trans (boundOf_ge_dep e σ t dp hd dt hdt) hle⟩
+
+/-- **C04 for whole projects (forward mode)**: after scheduling ANY well-formed project, every forward effort task
+    without a start of its own that is reported as scheduled starts at or after `(start | end) + gap` of every leaf
+    predecessor — edges of its own, inherited from every enclosing container, and created by `precedes` on the other
+    side (all are in `allDeps`) — and every such predecessor is itself scheduled.  The dates compared are those of
+    the final schedule. -/
+theorem forward_deps_respected (e : Env) (wf : WF e) (t : Nat) (hel : FwdEff e t)
+    (hs : ((runScenario e).tst t).scheduled = true) (hf : ((runScenario e).tst t).forward = true)
+    (dp : Dep) (hd : dp ∈ (e.taskD t).allDeps) (hx : (e.taskD dp.target).leaf = true) :
+    ((runScenario e).tst dp.target).scheduled = true ∧
+    ∀ dt v, dateOf (runScenario e) dp = some dt → ((runScenario e).tst t).start = some v → dt + dp.gap ≤ v :=
+  runScenario_depsOK e wf t hel
+    (runScenario_scheduled_done e t ⟨hel.leaf, hel.effort, hel.nomile⟩ hs) hf dp hd hx
+
+/-- the same for the environment elaborated from a project description, under the decidable check -/
+theorem forward_deps_respected_elab (p : RawProj) (h : wfCheck (elaborate p).env = true) (t : Nat)
+    (hel : FwdEff (elaborate p).env t)
+    (hs : ((runScenario (elaborate p).env).tst t).scheduled = true)
+    (hf : ((runScenario (elaborate p).env).tst t).forward = true)
+    (dp : Dep) (hd : dp ∈ ((elaborate p).env.taskD t).allDeps) (hx : ((elaborate p).env.taskD dp.target).leaf = true) :
+    ((runScenario (elaborate p).env).tst dp.target).scheduled = true ∧
+    ∀ dt v, dateOf (runScenario (elaborate p).env) dp = some dt →
+      ((runScenario (elaborate p).env).tst t).start = some v → dt + dp.gap ≤ v :=
+  forward_deps_respected _ (wfCheck_sound _ h) t hel hs hf dp hd hx
+
+/-- non-vacuity: b (1 h) depends on a (20 min) with a gap of 90 min, one resource: a well-formed project in which
+    b is a forward effort task with one edge to a leaf -/
+def gapProj : RawProj :=
+  { G := 3600, start := 1736121600, stop := 1737331200,
+    res := [{}],
+    tasks := [{ effort := some (1/3), alloc := some ([0], []) },
+              { effort := some 1, alloc := some ([0], []), deps := [{ target := 0, gap := 5400 }] }] }
+
+example : wfCheck (elaborate gapProj).env = true := by decide +kernel
+example : FwdEff (elaborate gapProj).env 1 :=
+  ⟨by decide +kernel, by decide +kernel, by decide +kernel, by decide +kernel, by decide +kernel⟩
+example : ((elaborate gapProj).env.taskD 1).allDeps.length = 1 ∧
+    ∀ dp ∈ ((elaborate gapProj).env.taskD 1).allDeps, ((elaborate gapProj).env.taskD dp.target).leaf = true := by
+  decide +kernel
 
 /-- backward mode: the deadline of a predecessor is at most (successor start − the largest gap the
     successor asks towards it or an enclosing container), for every scheduled successor -/
